@@ -241,7 +241,7 @@ def lifecycle(c):
     check_inv(c, w, tr, own, mons, training0, "pre")
     ops = ["none", "train", "eval", "clear", "update"]
     if shape != "one_empty":
-        ops += ["del_monitor_a_post", "add_monitor_again", "add_monitor_unique_replaces", "add_monitor_unique_replaces_post", "del_cell_a"]
+        ops += ["del_monitor_a_post", "add_monitor_again", "add_monitor_unique_replaces", "add_monitor_unique_replaces_post", "del_cell_a", "strip_del_readd_a"]
     if shape in TWO:
         ops += ["del_cell_b", "readd_cell_b"]
     op = c.choice("operation", ops)
@@ -296,6 +296,19 @@ def lifecycle(c):
         new = c.call(c.getattr(tr, "add_monitor"), "a", "post", "neuron.spike", w.ctor("a.post2"), True)
         c.ensure("add_monitor:unique_returns_a_new_monitor", new is not old and all(new is not m for m in mons.values()))
         survivors["a", "post"] = new
+    elif op == "strip_del_readd_a":
+        # every monitor of the cell deleted one by one, then the cell itself, then the cell registered again: nothing stale
+        # may be left behind (the pool must have forgotten the cell), the new monitor pools / hooks like any other
+        for k_ in [k_ for k_ in survivors if k_[0] == "a"]:
+            survivors.pop(k_)
+            c.call(c.getattr(tr, "del_monitor"), "a", k_[1])
+        c.call(c.getattr(tr, "del_cell"), "a")
+        out = c.outcome(c.getattr(tr, "add_cell"), "a", w.cells[own["a"]])
+        c.expect_return(out, "readd_after_stripping_every_monitor_is_accepted")
+        if not out.ok:
+            return
+        survivors["a", "post"] = c.call(c.getattr(tr, "add_monitor"), "a", "post", "neuron.spike", w.ctor("a.post4"), False, tc=1.0)
+        own = dict([("a", own["a"])] + [(n, o) for n, o in own.items() if n != "a"]) if False else own
     elif op in ("del_cell_a", "del_cell_b", "readd_cell_b"):
         victim = "a" if op == "del_cell_a" else "b"
         c.call(c.getattr(tr, "del_cell"), victim)
@@ -484,6 +497,7 @@ def monitor_kinds(c):
 
 
 MUTANTS = [
+    dict(file=PO, func="MonitorPool.del_observed", old="        if name in self.observed_:\n            del self.observed_[name]", new="            if name in self.observed_:\n                del self.observed_[name]", contracts=["CellTrainer.lifecycle"], name="seed C15f: a cell without monitors is never forgotten by the pool"),
     dict(file=PO, func="MonitorPool.add_monitor", old="            if unique:\n                del self.monitors_[observed][name]", new="            if unique:\n                monitor.deregister()\n                del self.monitors_[observed][name]", contracts=["CellTrainer.lifecycle"], name="seed C15: unique re-add deregisters the replaced monitor although another cell pools it"),
     dict(file=PO, func="MonitorPool.del_monitor", old="        if not any(m is removed for m in self.monitors):\n            removed.deregister()", new="        removed.deregister()", contracts=["CellTrainer.lifecycle"], name="D14 regression (del_monitor)"),
     dict(file=PO, func="MonitorPool.del_observed", old="                if not any(m is monitor for m in self.monitors):\n                    monitor.deregister()", new="                monitor.deregister()", contracts=["CellTrainer.lifecycle"], name="D14 regression (del_observed)"),
